@@ -195,6 +195,12 @@ def run(run: Run) -> None:
                 us.append((4, ("GEN", name, 4, s), SA[(i + 1) % 2], "exploitability", f"gen4:{name}:{s}", triples, seed))
     sam = A.a3_sam()
     us.append((3, sam[(11 * (seed + 1)) % len(sam)], "sam_apx_1", "l1_norm", "sam3", (), seed))
+    g5 = A.shifted(tuple(A.popcount(s) ** 2 + (s % 3) for s in range(32)), (1, -1, 2, 0, 3))
+    keep5 = (3, 12, 7, 25, 30, 15)            # six explorable coalitions of mixed sizes -> 64 env states
+    us.append((5, [g5, A.scaled(g5, 0.5)], SA[1], "l1_norm", "exact5-six-explorable", tuple(s for s in A.explorable_ids(5) if s not in keep5), seed))
+    g6 = dict(A.larger_n_samples(6))["path-shift"]
+    keep6 = (3, 5, 56, 62, 21)
+    us.append((6, g6, SA[1], "exploitability", "exact6-five-explorable", tuple(s for s in A.explorable_ids(6) if s not in keep6), seed))
     if not quick:
         us.append((5, A.shifted(tuple(A.popcount(s) ** 2 + (s % 3) for s in range(32)), (1, -1, 2, 0, 3)), SA[1], "l1_norm", "exact5",
                    tuple(s for s in range(32) if A.popcount(s) in (2, 4)), seed))
